@@ -262,7 +262,11 @@ def ship_oracle(c: Circuit, battery: bool) -> 'str | None':
         except Exception as e:  # noqa
             rt.log(name, 'raised', repr(e))
             return '%s:raised:%s' % (name, type(e).__name__)
-        fp = equal_checks(name, c, c2, snap)
+        try:
+            fp = equal_checks(name, c, c2, snap)
+        except Exception as e:  # noqa
+            rt.log(name, 'arrived object unreadable:', repr(e))
+            fp = '%s:arrived-unreadable:%s' % (name, type(e).__name__)
         if fp is not None:
             return fp
         if name in ('become', 'become-shallow'):
@@ -281,12 +285,15 @@ def ship_oracle(c: Circuit, battery: bool) -> 'str | None':
                     pass
                 if c.num_operations != snap[3] or c.num_cycles != snap[2]:
                     return '%s:shares-state:%s' % (name, m.__name__)
-            if snapshot(c) != snap:
-                return '%s:shares-state' % name
             try:
+                if snapshot(c) != snap:
+                    return '%s:shares-state' % name
                 check_invariant(c, 'original after mutating the copies')
             except Viol as v:
                 return '%s:shares-state:%s' % (name, v.fp)
+            except Exception as e:  # noqa
+                rt.log('original unreadable after mutating copies:', repr(e))
+                return '%s:shares-state:original-unreadable' % name
     # operations and gates on their own
     for row in grid(c):
         for op in row:
@@ -346,8 +353,8 @@ def circ_run(xs: list, av: list) -> bool:
         rt.log('circuit', repr(subject), flat_of(subject))
     mk = S.get('mutate')
     if mk is None:
-        fp = rt.nt(ship_oracle, subject, bool(S.get('battery', True)))
         rt.reach()
+        fp = rt.nt(ship_oracle, subject, bool(S.get('battery', True)))
         return True if fp is None else rt.fail(fp)
     # copy, then ONE symbolic editing call on the copy; the original must not notice
     try:
@@ -404,8 +411,8 @@ def radix_run(xs: list) -> bool:
         return True
     if rt.CONCRETE:
         rt.log('radixes', rad, 'circuit', repr(circ), 'params', list(circ.params))
-    fp = ship_oracle(circ, True)
     rt.reach()
+    fp = ship_oracle(circ, True)
     return True if fp is None else rt.fail(fp)
 
 
